@@ -139,17 +139,50 @@ def rule_k9(ck, prog, S):
     except (TypeError, ValueError):
         ck.anchor_lost("C18-K9", "macro SCPI_STD_ERROR_DESC_MAX_STRING_LENGTH")
         return
-    adds = K.effect_sites(prog, S, f, lambda c_: c_.get("callee") == "SCPI_ErrorAddInternal")
-    probs = []
-    if len(adds) != 1:
-        ck.anchor_lost("C18-K9", "one SCPI_ErrorAddInternal call in SCPI_ErrorPushEx (%d)" % len(adds))
+    # where the text is duplicated for the queue: in SCPI_ErrorPushEx itself or in a helper on every path of which it happens
+    DUPS = {"strndup": (0, 1), "__strndup": (0, 1), "OUR_strndup": (0, 1), "scpiheap_strndup": (1, 2)}
+
+    def find_dup(fn_, depth=0):
+        """[(call chain from SCPI_ErrorPushEx down to the duplicator call)]"""
+        out = []
+        for c in fn_.calls():
+            if c.get("callee") in DUPS:
+                out.append([(fn_, c)])
+            else:
+                g = prog.fn(c.get("callee") or "")
+                if g is not None and g.static and depth < 2 and g.name != fn_.name:
+                    out += [[(fn_, c)] + ch for ch in find_dup(g, depth + 1)]
+        return out
+    chains = find_dup(f)
+    if not chains:
+        if prog.macros.get("USE_DEVICE_DEPENDENT_ERROR_INFORMATION", "1").strip() in ("0",):
+            ck.holds("C18-K9", st, K.loc(f), "no device-dependent text in this configuration", nontrivial=False)
+        else:
+            ck.anchor_lost("C18-K9", "no text duplication reachable from SCPI_ErrorPushEx")
         return
-    rep, real, host = adds[0]
-    a_text, a_len = K.arg_through(prog, rep, real, host, 2), K.arg_through(prog, rep, real, host, 3)
-    if a_text is None or a_text.strip_all_casts().get("path") != infop:
-        probs.append("the text queued is `%s`, not the text given" % (a_text.src if a_text is not None else "?"))
-    if a_len is None or a_len.strip_all_casts().get("path") != lenp:
-        probs.append("the length queued is `%s`, not the length given" % (a_len.src if a_len is not None else "?"))
+    probs = []
+
+    def back(chain, arg):
+        """the duplicator argument expressed in SCPI_ErrorPushEx's terms (None when it is not a plain hand-down)"""
+        node = arg
+        for k in range(len(chain) - 1, 0, -1):
+            host = chain[k][0]
+            pth = node.strip_all_casts().get("path")
+            names = [q["name"] for q in host.params]
+            if pth not in names or any(t.get("path") == pth for _n, t in C.stores(host)):
+                return None
+            node = K.arg(chain[k - 1][1], names.index(pth))
+            if node is None:
+                return None
+        return node
+    for chain in chains:
+        dup = chain[-1][1]
+        ti, li = DUPS[dup["callee"]]
+        t0, l0 = back(chain, K.arg(dup, ti)), back(chain, K.arg(dup, li))
+        if t0 is None or t0.strip_all_casts().get("path") != infop:
+            probs.append("the text duplicated for the queue is `%s`, not the text given" % K.arg(dup, ti).src)
+        if l0 is None or l0.strip_all_casts().get("path") != lenp:
+            probs.append("the length duplicated is `%s`, not the length given" % K.arg(dup, li).src)
     for n_, t in C.stores(f):
         if t.get("path") == infop:
             probs.append("`%s` changes the text pointer" % n_.src[:50])
@@ -166,12 +199,13 @@ def rule_k9(ck, prog, S):
                          % (n_.src[:60], limit))
         elif not auto:
             probs.append("`%s` also replaces a length the caller gave explicitly" % n_.src[:60])
+    where = K.loc(f, chains[0][0][1])
     if probs:
-        ck.violated("C18-K9", st, K.loc(f, rep), "; ".join(probs) + ": the response is cut earlier than the 255-character limit requires "
-                    "(or reports text the caller did not hand over)")
+        ck.violated("C18-K9", st, where, "; ".join(list(dict.fromkeys(probs))) + ": the response is cut earlier than the 255-character "
+                    "limit requires (or reports text the caller did not hand over)")
     else:
-        ck.holds("C18-K9", st, K.loc(f, rep), "SCPI_ErrorAddInternal(context, err, %s, %s); automatic length = strnlen(%s, %d) only for %s == 0"
-                 % (infop, lenp, infop, limit, lenp))
+        ck.holds("C18-K9", st, where, "%s duplicates (%s, %s); automatic length = strnlen(%s, %d) only for %s == 0"
+                 % (chains[0][-1][1]["callee"], infop, lenp, infop, limit, lenp))
 
 
 def rule_k2_k5(ck, prog, cfg):
